@@ -11,7 +11,7 @@ import math
 
 from mc import rng
 from mc.explorer import System, Violation, dev_split
-from checks.drivers import DRIVERS
+from checks.drivers import DRIVERS, drift_prefixes
 
 PROPERTY = "C01"
 
@@ -105,6 +105,9 @@ class Lifecycle(System):
             mon["prev_state"] = st
             if st == "drift":
                 ctx.mark("drift_transitions")
+                ctx.count("drift:%s" % name)
+                if mon["epoch_idx"] >= 1:
+                    ctx.count("drift_in_later_epoch:%s" % name)
                 mon["drifts"] += 1
             return obs
 
@@ -228,6 +231,9 @@ class Lifecycle(System):
 
         if st == "drift":
             ctx.mark("drift_transitions")
+            ctx.count("drift:%s" % name)
+            if mon["epoch_idx"] >= 1:
+                ctx.count("drift_in_later_epoch:%s" % name)
             mon["drifts"] += 1
             mon["consec"] += 1
             if mon["consec"] >= 2:
@@ -329,6 +335,20 @@ def tasks(tier, seed):
                 prefixes = [()]
             else:
                 prefixes = list(itertools.product(d.alphabet(p), repeat=split))
+            # scripted starts from non-initial states: shortest histories ending in a drift, then the full suffix depth
+            after = [] if name in ("DDM", "ADWIN", "CUSUM", "PageHinkley") else drift_prefixes(name, p, maxlen=8 if d.kind == "stream" else 3, limit=2)
+            for pre in after:
+                out.append(
+                    {
+                        "system": name,
+                        "cfg": {"id": ci, "params": p},
+                        "prefix": list(pre),
+                        "depth": max(2, depth - 2),
+                        "label": "%s|%d|after-drift:%s" % (name, ci, ",".join(map(str, pre))),
+                        "cost": 2 * {"KdqTreeBatch": 30, "LinearFourRates": 20, "HDDDM": 10, "CDBD": 8, "NNDVI": 8, "KdqTreeStreaming": 10}.get(name, 1),
+                        "validate_every": 211,
+                    }
+                )
             for pre in prefixes:
                 out.append(
                     {
@@ -344,7 +364,7 @@ def tasks(tier, seed):
     return out
 
 
-REQUIRED = [
+REQUIRED = ["drift:%s" % n for n in DRIVERS] + ["drift_in_later_epoch:%s" % n for n in DRIVERS] + [
     "drift_transitions",
     "warning_transitions",
     "restarts",
